@@ -20,7 +20,7 @@ RULE = ("Cases: generated content tree x piece length x creator in {TorrentFileV
 ASSUMPTIONS = [
     "vf/ref/hashing.py BEP 52 reference (two formulations cross-checked on every file; pinned to the specification's worked facts at start)",
     "vf/ref/bencode.py strict decoder",
-    "file names are valid UTF-8; no symlinks/special files",
+    "file names are valid UTF-8; symbolic links to files and directories inside the tree are generated (the tool follows them: linked content is payload under the link's name); no special files",
 ]
 BUDGET = {
     "quick": {"examples": 650, "workers": 8, "time_cap": 70},
